@@ -10,7 +10,7 @@ from engine_common import M, seq
 from engine_impl import run_scenario
 
 MANIFEST = {
-    "text": "PARTIAL (request landing after the plan's end, see findings). Lean (Props/C02.lean, over the shared "
+    "text": "PARTIAL (open finding: a refused abort() in the exit sleep still overwrites status and reason; requests ACCEPTED in the exit sleep may or may not be reflected in the RunStop). Lean (Props/C02.lean, over the shared "
     "program-counter model of RunEngine._run): C02_ladder -- leaveLoop stores exactly the status of the GENERATED except "
     "ladder of _run for every exception class, and with the current source that is the documented mapping (StopIteration/"
     "RequestStop -> success, FailedPause/RequestAbort/CancelledError/PlanHalt -> abort, everything else -> fail with the "
@@ -37,6 +37,10 @@ ASSUMPTIONS = [
     "synchronous fake devices; statuses complete only when the script says so",
     "a plan that handles a control exception (RequestAbort/RequestStop/FailedPause) and then ends on its own counts as ended "
     "the way it ended (normal completion / its own error), as the except ladder of _run does",
+    "a request that lands after the plan's last message, in the exit sleep of _run (arrival S4), and is ACCEPTED may or may "
+    "not be reflected in the engine-written RunStop: both the status of how the plan ended and the request's status are "
+    "accepted there (abort -> 'abort', halt / unresumable suspension -> 'success' in the current code); a REFUSED request "
+    "must leave no trace",
 ]
 
 CONTROL = ("RequestAbort", "RequestStop", "FailedPause", "PlanHalt")
@@ -114,26 +118,31 @@ def oracle(sc, o):
         for (a, b), t in zip(g["trans"], g["trans_t"]):
             if s4_t is not None and t < s4_t:
                 st_at_s4 = b
+        also = set()
         if foreign:
             want, why = "fail", f"unhandled {result[6:]}"
         elif last_t is None:
             want, why = "success", "normal completion"
         elif after_end:
-            # the plan had ended (normally or by a control exception) when the request was accepted
+            # the plan had ended (normally or by a control exception) when the request was ACCEPTED in the exit
+            # sleep(0): the RunStop may reflect how the plan ended or the request (ruling: both readings hold)
+            ended = {"running": "success", "pausing": "success", "suspending": "success", "stopping": "success"}.get(st_at_s4, "abort")
             want, why = EXPECT[last_t[0]], f"{last_t[0]} entered after the plan's end"
+            also = {ended}
         elif o["plan_finished"]:
             want, why = "success", f"the plan handled the {last_t[0]} request and completed on its own"
         else:
             want, why = EXPECT[last_t[0]], f"terminated through {last_t[0]}"
         for d in stops:
-            if d["exit"] != want:
-                if after_end:
+            if d["exit"] != want and d["exit"] not in also:
+                if d["exit"] == "abort" and "abort" in o["refused"] and any(a["a"] == "abort" for a in s4_acts) and last_t and last_t[0] != "aborting":
+                    # an abort() made in the exit sleep was refused, yet its status is on the RunStop
+                    sig = f"exit-status-after-plan-end:refused-abort-request-at-S4-while-{last_t[0]}:abort-instead-of-{want}"
+                elif after_end:
                     # which request produced the last terminating state
                     kinds = [a["a"] for a in s4_acts]
                     req = {"halting": "halt", "stopping": "stop"}.get(last_t[0]) or ("abort" if "abort" in kinds else "suspend-unresumable" if "suspend" in kinds else "?")
                     sig = f"exit-status-after-plan-end:{req}-request-at-S4:{d['exit']}-instead-of-{want}"
-                elif s4_acts and any(a["a"] == "abort" for a in s4_acts) and "abort" in o["refused"] and d["exit"] == "abort":
-                    sig = f"exit-status-after-plan-end:refused-abort-request-at-S4-while-{st_at_s4}:abort-instead-of-{want}"
                 elif foreign:
                     sig = f"exit-status:unhandled-{result[6:]}:{d['exit']}-instead-of-fail"
                 else:
@@ -327,8 +336,8 @@ def run(ctx, model=True):
     global _ENUM
     if _ENUM is None:
         _ENUM = enumerate_s4()
-    extra = _ENUM if (ctx.tier == "thorough" or ctx.deep) else ctx.rng.sample(_ENUM, 60)
-    return E.run_property(ctx, "C02", oracle, gen=gen, quick=140, thorough=3000, model=model, extra_scenarios=extra)
+    extra = _ENUM if (ctx.tier == "thorough" or ctx.deep) else ctx.rng.sample(_ENUM, 40)
+    return E.run_property(ctx, "C02", oracle, gen=gen, quick=60, thorough=1500, model=model, extra_scenarios=extra)
 
 
 def run_impl_only(ctx):
